@@ -10,7 +10,7 @@ import (
 
 func init() {
 	register(&Property{
-		ID: "C09",
+		ID:          "C09",
 		Explanation: "Everything that reaches the tape passes through the encryption wrapper, decided for every write site: (header-wrapped) each (*tar.Writer).WriteHeader(h) in the module is reachable only across the success edge of encryption.EncryptHeader(h, <pipes>.Encryption, <crypto>.Recipient), itself only across the success edge of signature.SignHeader(h, ..., <pipes>.Signature, <crypto>.Identity) on the same variable, with no store through h in between; (content-wrapped) the tar writer value is used only as receiver of WriteHeader and as destination of encryption.Encrypt, and tar.NewWriter is called only in internal/tarext; (wrapper-shape) the header EncryptHeader substitutes is a literal with exactly Format, Size and PAXRecords, the only record stored in it is the embedded header whose value is EncryptString of the JSON of the whole original header, and in the non-None arms of Encrypt/EncryptString nothing derived from the plaintext parameter is returned except through the crypto library call.",
 		NotDecided:  "Secrecy of the ciphertext and key separation (crypto libraries), leakage through record sizes, that a different private key fails to decrypt.",
 		Assumptions: []string{"age.Encrypt and openpgp.Encrypt produce ciphertext that reveals nothing but length"},
@@ -53,10 +53,10 @@ func storesThrough(info *types.Info, n ast.Node, h types.Object) bool {
 }
 
 type writeSite struct {
-	f    *FuncInfo
-	cs   *CallSite
-	h    types.Object
-	ord  int
+	f   *FuncInfo
+	cs  *CallSite
+	h   types.Object
+	ord int
 }
 
 func writeHeaderSites(c *Ctx) []writeSite {
